@@ -52,7 +52,7 @@ def run_js(pid, tier, seed, replay=None, shards=NCPU, profile="checked", wall_s=
     procs = []
     if replay:
         shards = 1
-    wall_s = wall_s or (3000 if tier == "thorough" else 900)
+    wall_s = wall_s or (7200 if tier == "thorough" else 1500)
     for i in range(shards):
         out = os.path.join(tmp, f"shard{i}.json")
         cmd = [node, "--no-warnings", "--stack-size=4000", "--max-old-space-size=3072", os.path.join(VERIF, "lib/js/worker.mjs"), pid, "--tier", tier, "--seed", str(seed), "--shard", str(i), "--nshards", str(shards), "--out", out]
